@@ -19,7 +19,7 @@ for p in claimed:
         "engine": c.get("engine", "kani-cbmc"),
         "level_claimed": {"category": "model_checking", "text": c["text"], "design_ref": c.get("design_ref", "DESIGN.md §4 " + p)},
         "level_note": c["note"],
-        "technique": c.get("technique", "bounded model checking (Kani/CBMC, SAT) of the real crates compiled from /repo with tree-sitter stubbed"),
+        "technique": c.get("technique", mm.TECH),
     })
 na = []
 for p in props:
